@@ -23,7 +23,7 @@ from ..core import Ctx, Infra, enc, subprocess_env, VERIF
 USES_TABLES = True
 
 THEOREMS = ["Builder.sim", "Builder.documented_eq_bound_partial", "Builder.kind_eq", "Builder.kind_eq_iff",
-            "Builder.exception_eq", "Builder.exception_eq_of_tables", "Builder.exception_table_sound",
+            "Builder.exception_eq_partial", "Builder.exception_eq_of_tables", "Builder.exception_eq_qualified_counterexample", "Builder.exception_table_sound",
             "Builder.exception_table_complete", "Builder.exception_tables_agree", "Builder.docstring_eq",
             "Builder.value_eq", "Builder.infer_type_sound", "Builder.infer_elements_sound", "Builder.infer_none_iff",
             "Builder.documented_eq_bound_setter_counterexample", "Builder.documented_eq_bound_annotation_counterexample",
@@ -32,7 +32,7 @@ THEOREMS = ["Builder.sim", "Builder.documented_eq_bound_partial", "Builder.kind_
             "Builder.documented_eq_bound_rebinding_counterexample", "Builder.documented_eq_bound_overload_counterexample",
             "Builder.maybeAttribute_eq_find", "Builder.inheritedNonAttrOf_contains", "Builder.rel_put", "Builder.rel_updvar",
             "Builder.documented_eq_bound_del_counterexample", "Builder.docstring_eq_docassign_counterexample_old",
-            "Builder.kind_eq_counterexample", "Builder.oldstyle_double_wrap_asserts", "Builder.isNameEqualsMain_iff",
+            "Builder.kind_eq_counterexample", "Builder.oldstyle_rewrap_last_wins", "Builder.oldstyle_double_wrap_asserts_old", "Builder.isNameEqualsMain_iff",
             "Builder.recognised_not_taken", "Builder.near_misses_taken_and_entered",
             "Builder.documented_eq_bound_untaken_guard_counterexample",
             "Builder.exception_eq_counterexample_old", "Builder.docstring_eq_counterexample_old"]
@@ -71,9 +71,9 @@ PARTIAL = {
         "@x.setter/@x.deleter/@overload, bare annotations, decorators other than bare classmethod/staticmethod/property in a class (at most one per def) or identity "
         "decorators not named *property, definitions in else/finally parts, a class attribute assigned a NON-literal that shadows an inherited method/class, "
         "a `__name__` guard that pydoctor enters although it is not taken on import (or the reverse), `del`, `name.__doc__ = text` unless name is a plain function or class of the "
-        "namespace (any text, since 6e624d0), a second old-style wrapping. (The exception-table clause of inSubset is vacuous for the generated tables: "
+        "namespace (any text, since 6e624d0), an external base written `builtins.X`. (The exception-table clause of inSubset is vacuous for the generated tables: "
         "Builder.basesOk_generated.) Each excluded construct has a counterexample theorem; setter, bare annotation and non-literal inherited shadowing "
-        "are recorded open findings. Docstring (Builder.docstring_eq) and exception kind (Builder.exception_eq) carry no exclusion of their own since fcaa577 / 769cae3; "
+        "(and, judged by probes, the property protocol through a base class / getter, re-typing by unpacking, async generators, qualified builtin exception bases) are recorded open findings. Docstring (Builder.docstring_eq) and exception kind (Builder.exception_eq) carry no exclusion of their own since fcaa577 / 769cae3; "
         "the former witnesses are kept as *_counterexample_old over labelled pre-fix definitions.",
     "Builder.kind_eq": "decorator lists accepted by Subset.decosOk (kind_eq_iff characterises agreement for all lists of evaluable decorators)",
 }
@@ -234,10 +234,16 @@ def gen_doc(rng, indent: str) -> str:
     """the *value* of a docstring literal; printed verbatim between triple quotes"""
     def w() -> str:
         return " ".join(rng.choice(WORDS) for _ in range(rng.randint(1, 3)))
-    lay = rng.randrange(10)
+    lay = rng.randrange(13)
     inner = indent
     if lay == 0:
         return w()
+    if lay == 10:                                  # one line, trailing blanks (cleandoc keeps them, only the left side is stripped)
+        return rng.choice(["", " ", "   "]) + w() + rng.choice([" ", "  ", " \t", "\t"])
+    if lay == 11:                                  # one line with tabs inside (cleandoc expands them)
+        return w() + rng.choice(["\t", ":\t", " \t "]) + w()
+    if lay == 12:                                  # one line, tabs and blanks on both sides
+        return rng.choice(["\t", " \t"]) + w() + "\t" + w() + rng.choice(["", " ", "\t "])
     if lay == 1:                                   # first line on the quotes line, closing quotes on their own line
         return w() + "\n" + inner + w() + "\n" + inner
     if lay == 2:                                   # text starts below the quotes
@@ -328,6 +334,7 @@ class ProjGen:
         self.scopes: List[Scope] = []
         self.exc_names = all_builtin_exceptions()
         self.exc_cids: Set[int] = set()
+        self.qual_cids: Set[int] = set()
         self.import_forms: List[str] = []
         self.redefined = 0
 
@@ -399,14 +406,15 @@ class ProjGen:
             for kind in rng.sample(["set", "del"], rng.randint(1, 2)):
                 sc.label(name, "setter")
                 out.append(("def", name, False, [(kind, name)], gen_doc(rng, "    " * (indent_depth + 1)) if rng.random() < 0.5 else None, ""))
-        if sc.in_class and not decos and not is_async and self.chance(0.25):
+        if sc.in_class and all(d in ("c", "s", "un") or (isinstance(d, tuple) and d[0] == "o" and d[1] != "log_property") for d in decos) \
+                and not sc.labels.get(name) and rng.random() < (0.12 if not decos else 0.08):
+            # old-style wrapping of a method, also of one that is decorated already (04d150a: the last wrapper decides)
             if rng.random() < 0.3:
                 out.append(("oth",))
             out.append(("old", name, rng.choice(["c", "s"])))
             if name in sc.docable:
                 sc.docable.remove(name)
-            if self.chance(0.05):
-                sc.label(name, "double-wrap")     # AssertionError in _handleOldSchoolMethodDecoration
+            if rng.random() < 0.25:
                 out.append(("old", name, rng.choice(["c", "s"])))
 
     def pick_name(self, sc: Scope, seen: Dict[str, str], prefix: str, kind: str) -> str:
@@ -464,6 +472,7 @@ class ProjGen:
                   local_classes: List[Tuple[str, int]], in_block: bool, force_name: Optional[str] = None,
                   force_bases: Optional[list] = None, simple: bool = False) -> None:
         rng = self.rng
+        qualified_base = False
         name = force_name or self.fresh("K")
         self.cid += 1
         cid = self.cid
@@ -473,7 +482,11 @@ class ProjGen:
             bases = list(force_bases)
         elif r < 0.35:
             pool = EXC_COMMON * 3 + self.exc_names + NON_EXC * 4
-            bases.append(("e", rng.choice(pool)))
+            b0 = rng.choice(pool)
+            if self.chance(0.08):
+                b0 = "builtins." + b0          # `class E(builtins.ValueError)`: the module imports builtins
+                qualified_base = True
+            bases.append(("e", b0))
         elif r < 0.7 and local_classes:
             # hierarchies across modules: prefer exception classes of the project (chains, mixins, diamonds)
             excs = [x for x in local_classes if x[1] in self.exc_cids]
@@ -487,8 +500,11 @@ class ProjGen:
             if rng.random() < 0.15:
                 bases.append(("e", rng.choice(EXC_COMMON)))
         self.env[cid] = [b[:2] for b in bases]
-        if any((b[0] == "e" and b[1] in self.exc_names) or (b[0] == "u" and b[1] in self.exc_cids) for b in bases):
+        if any((b[0] == "e" and b[1].replace("builtins.", "") in self.exc_names) or (b[0] == "u" and b[1] in self.exc_cids) for b in bases):
             self.exc_cids.add(cid)
+        if qualified_base or any(b[0] == "u" and b[1] in self.qual_cids for b in bases):
+            self.qual_cids.add(cid)            # the qualified name is reachable through the bases
+            sc.label(name, "qualified-base")
         decos = [rng.choice([("o", "deco"), ("o", "dfac"), "un"])] if rng.random() < 0.1 else []
         doc = gen_doc(rng, "    " * (indent_depth + 1)) if rng.random() < 0.6 else None
         inherited: Dict[str, str] = {}
@@ -1019,7 +1035,7 @@ def oracle_scope(ctx: Ctx, sc: Scope, pd: Dict[str, Dict[str, Any]], py: Dict[st
     def excused(name: str) -> Optional[str]:
         """mismatch on a name the generator put outside the theorem's subset for a reason that is not a recorded finding"""
         for why in ("rebound", "overload", "tail-def", "stacked-descriptors", "qualified-spelling",
-                    "opaque-named-property", "module-level-descriptor", "double-wrap", "untaken-guard", "deleted"):
+                    "opaque-named-property", "module-level-descriptor", "untaken-guard", "deleted"):
             if why in sc.labels.get(name, ()):
                 return why
         return None
@@ -1052,7 +1068,10 @@ def oracle_scope(ctx: Ctx, sc: Scope, pd: Dict[str, Dict[str, Any]], py: Dict[st
         p = pd[n]
         pk = PD2KC.get(p["kind"], "variable") if p["cls"] != "Attribute" or p["kind"] == "PROPERTY" else "variable"
         if pk != d["kind"]:
-            if d["kind"] == "exception" and pk == "class":
+            if d["kind"] == "exception" and pk == "class" and "qualified-base" in sc.labels.get(n, ()):
+                report("kind:exception-qualified-builtin-base", n, "%r derives from builtins.<exception>: documented as a class, "
+                       "Python says it is an exception class" % n)
+            elif d["kind"] == "exception" and pk == "class":
                 report("kind:exception-documented-as-class", n, "%r is documented as a class; Python says it is an exception class "
                        "(issubclass(cls, BaseException) through its bases)" % n)
             else:
@@ -1357,6 +1376,28 @@ def assemble(mod_specs: List[Tuple[str, bool, List[str], list]]):
                 sc.label(st[1], "doc-assign-unclean")
             if st[0] == "del":
                 sc.label(st[1], "deleted")
+            if st[0] == "class" and any(b[0] == "e" and b[1].startswith("builtins.") for b in st[2]):
+                sc.label(st[1], "qualified-base")
+            if st[0] == "blk" and st[1] in ("t", "f"):
+                for nm in bound_names(st[3]):
+                    sc.label(nm, "tail-def")
+        defs: Set[str] = set()
+
+        def mark(stmts: list) -> None:
+            for st in stmts:
+                if st[0] in ("def", "class"):
+                    defs.add(st[1])
+                elif st[0] == "asg" and st[1] in defs:
+                    sc.label(st[1], "rebound")          # a definition, then an assignment: pydoctor keeps the definition
+                elif st[0] == "blk":
+                    mark(st[2])
+                elif st[0] == "cmp":
+                    if guard_taken(st[1]):
+                        mark(st[2])
+                    else:
+                        for nm in bound_names(st[2]):
+                            sc.label(nm, "untaken-guard")
+        mark(sc.stmts)
     return g, files, [q for q, _ in g.modules]
 
 
@@ -1394,6 +1435,18 @@ def corpus_packages():
         D("f6"),
         ("doc", "f6", "\n    Title\n\n      indented\n    "),                   # finding: doc assignment not cleaned
         D("f8"), ("doc", "f8", "assigned, already clean"),
+        # seeded r3-2: one-line docstrings with trailing blanks / tabs (cleandoc strips the LEFT side only and expands tabs)
+        D("f9", (), "Summary. "), D("f10", (), "key:\tvalue"), D("f11", (), "  both sides \t"),
+        C("K30", 30, (), [D("m30", (), "Method summary.  "), D("p30", ["p"], "prop:\tdoc "), D("c30", ["c"], "\tclassmethod doc\t"),
+                          D("s30", ["s"], "static  ", True),
+                          D("w30", ["c"]), ("old", "w30", "s"), ("old", "w30", "c"),          # re-wrapping (04d150a)
+                          A("x30", "1"), ("oth",), ("str", "doc for x30, another statement in between"),
+                          ], "Class summary. \t"),
+        C("K31", 31, [E("builtins.ValueError")]),                               # finding: qualified builtin exception base
+        D("f12", (), "a function"), A("f12", "3"),                              # outside: a definition, then an assignment
+        ("cmp", ("m", "eq", "d", 0), [D("rev_main")]),                          # outside: `'__main__' == __name__` (untaken, entered)
+        ("blk", "t", [("oth",)], [D("in_finally")]),                            # outside: definitions in else/finally
+        ("blk", "f", [A("in_for", "1")], [D("in_for_else")]),
     ]
     ma = [
         C("K2", 20, (), [
@@ -1429,8 +1482,67 @@ def run_corpus(ctx: Ctx) -> None:
     ctx.count("corpus:namespaces", ctx.evaluations - before)
 
 
+REVIEW_PROBE = """class A:
+    @property
+    def p(self):
+        "A.p"
+    @property
+    def g(self):
+        "g"
+    @g.getter
+    def g(self):
+        "g again"
+class B(A):
+    @A.p.setter
+    def p(self, v):
+        pass
+retyped = 1
+retyped, other = 'a', 'b'
+async def agen():
+    yield 1
+async def coro():
+    pass
+"""
+
+
+def probe_review(ctx: Ctx) -> None:
+    """fixed module for constructs outside the IR, judged directly against CPython: the property protocol through a base
+    class (`@A.p.setter`) and `@g.getter`, a variable re-bound by an unpacking assignment after a literal, async generators"""
+    import types
+    from pydoctor import model
+    s = model.System()
+    b = s.systemBuilder(s)
+    b.addModuleString(REVIEW_PROBE, "m")
+    b.buildModules()
+    glob: Dict[str, Any] = {"__name__": "m"}
+    exec(REVIEW_PROBE, glob)
+    inp = {"files": {"m.py": REVIEW_PROBE}}
+    ctx.case("probe-review", True, None)
+    Bc, Ac = s.allobjects["m.B"], s.allobjects["m.A"]
+    if isinstance(vars(glob["B"]).get("p"), property) and "p" not in Bc.contents:
+        ctx.fail("missing-member:property-setter-of-inherited", dict(inp, scope="m.B", name="p"),
+                 "m.B: `@A.p.setter def p` binds a property B.p; pydoctor documents a method 'p.setter' and no 'p' (%s)" % list(Bc.contents))
+    g = Ac.contents.get("g")
+    if isinstance(vars(glob["A"]).get("g"), property) and (g is None or g.kind is not model.DocumentableKind.PROPERTY):
+        ctx.fail("kind:method-vs-property:getter", dict(inp, scope="m.A", name="g"),
+                 "m.A: `@g.getter def g` binds a property; pydoctor documents %s" % (g.kind.name if g is not None else None))
+    rt = s.allobjects["m.retyped"]
+    ann = ast.unparse(rt.annotation) if rt.annotation is not None else None
+    if ann is not None and ann != type(glob["retyped"]).__name__:
+        ctx.fail("infer:stale-type-after-unpacking", dict(inp, scope="m", name="retyped"),
+                 "m.retyped: inferred %s from the first assignment, the value after `retyped, other = 'a', 'b'` is a %s"
+                 % (ann, type(glob["retyped"]).__name__))
+    for fn in ("agen", "coro"):
+        o = s.allobjects["m." + fn]
+        if bool(o.is_async) != inspect.iscoroutinefunction(glob[fn]):
+            ctx.fail("kind:coroutine-flag:async-generator", dict(inp, scope="m", name=fn),
+                     "m.%s: is_async=%s, inspect.iscoroutinefunction=%s (isasyncgenfunction=%s)"
+                     % (fn, o.is_async, inspect.iscoroutinefunction(glob[fn]), inspect.isasyncgenfunction(glob[fn])))
+
+
 def run(ctx: Ctx) -> None:
     check_tables(ctx)
+    probe_review(ctx)
     run_corpus(ctx)
     probe_shadowing(ctx)
     probe_unpacking(ctx)
@@ -1521,6 +1633,13 @@ def run_batch(ctx: Ctx, batch, pyres) -> None:
         except Exception as e:
             ctx.fail("analysis-crash:" + type(e).__name__, {"files": files}, "%s: %s" % (type(e).__name__, e))
             continue
+        for q, _ in g.modules:
+            mo = system.allobjects.get(q)
+            if mo is not None and q in py.get("module_docs", {}):
+                ctx.count("module-docstrings")
+                if mo.docstring != py["module_docs"][q]:
+                    ctx.fail("docstring:module-differs", {"files": files, "scope": q},
+                             "module %s: docstring %r, interpreter %r" % (q, mo.docstring, py["module_docs"][q]))
         envt = env_token(g.env)
         for name, chain, r in find_log[:60]:
             find_reqs.append("builder find %s %s" % (enc(name), " ".join(contents_token(cc) for cc in chain)))
@@ -1579,7 +1698,7 @@ def run_batch(ctx: Ctx, batch, pyres) -> None:
     verdicts = ctx.driver.run_parallel(sub_reqs) if ctx.model_ok else ["out"] * len(sub_reqs)
     for v, (sc, pdinfo, pyinfo, files, inh, rq) in zip(verdicts, meta):
         ctx.count("subset:" + v)
-        if v == "in" and any(x - {"shadows-inherited", "string-after-property", "rebound-ok", "doc-assign-unclean"} for x in sc.labels.values()):
+        if v == "in" and any(x - {"shadows-inherited", "string-after-property", "rebound-ok", "doc-assign-unclean", "qualified-base"} for x in sc.labels.values()):
             # the generator's labels and the Lean predicate must agree on what is outside the subset
             ctx.disagree("subset-labels", {"scope": sc.qname, "labels": {k: sorted(x) for k, x in sc.labels.items()}, "files": files}, "in", "labelled")
         before = len(ctx.failures), sum(f["count"] for f in ctx.failures)
